@@ -466,7 +466,9 @@ def run_config(prog, cfg):
     for r in (r1, r2, r3, r4, r5, r6):
         for i in r.insts:
             i.config = cfg
-    return [r1, r2, r3, r4, r5, r6, r07_7(prog, cfg), r07_8(prog, cfg), r07_9(prog, cfg)]
+    from . import termination
+    r10 = termination.rule_for(prog, "R07.10", "the encoders and printers", scope, 40 if cfg == "default" else 10, cfg)
+    return [r1, r2, r3, r4, r5, r6, r07_7(prog, cfg), r07_8(prog, cfg), r07_9(prog, cfg), r10]
 
 
 def run(ctx):
